@@ -160,6 +160,9 @@ class SymTeam:
             raise UncutLoop(f"sum of non-numbers over a team: {tmpl!r}")
         t = v.t
         names = self.member_names()
+        why = getattr(c, "split_roots", {}).get(id(self.root))
+        if why:
+            raise UncutLoop(f"sum over team {self.index} after a loop whose body branched on a member's values ({why}): the members no longer share one result term")
         if not (_free(t) & names):
             return SymNum(z3.ToReal(self.L), KINT) * v
         mu, sg = self.sym["mu"], self.sym["sigma"]
@@ -468,7 +471,7 @@ class Fold:
                 watch.append(o)
         self.snap = _snapshot(watch)
         c.fold_depth = getattr(c, "fold_depth", 0) + 1
-        self.ntaken = len(c.taken)
+        self.forked_outside, c.fold_forked = getattr(c, "fold_forked", None), None
         return tuple(vals) if len(vals) != 1 else (vals[0],)
 
     def item(self):
@@ -477,6 +480,14 @@ class Fold:
     def end(self, loc):
         c = self.ctx
         c.fold_depth -= 1
+        forked = c.fold_forked
+        c.fold_forked = self.forked_outside or forked
+        if forked:
+            # the body took one side of a branch on the current member's values; other members may take
+            # the other side.  Member-wise conclusions stay valid on this path *for the members that take
+            # this side* (the other side is its own path); sums over the members do not.
+            for t in self.teams:
+                c.split_roots[id(t.root)] = forked
         hv_names = {str(h.t) for h in self.havoc.values()}
         # ---- heap effects: only the arbitrary member of the iterated team(s) may change, and its new
         # values may not depend on loop-carried state
@@ -534,6 +545,8 @@ class Fold:
                     P = field.Prover(c.hyps(), list(c.facts.values()), timeout_ms=5000)
                     if not P.prove_eq(a1.t, a0.t + d)[0]:
                         raise UncutLoop(f"{self.key}: `{n}` is not updated by adding a member-wise term")
+                if forked:
+                    raise UncutLoop(f"{self.key}: `{n}` accumulates over the members in a loop whose body branches on a member's values ({forked})")
                 total = _root_team(self.it).sum_of(SymNum(d, KFLOAT))
                 ent = self.entry[n]
                 out.append(ent + total)
